@@ -36,6 +36,7 @@ SCRIPTS = [
 class LConn(object):
     def __init__(self, name, app, side):
         self.name, self.app, self.side = name, app, side
+        self.chan = 0
         self.claimed = None
         self.allocated = False
         self.released = False
@@ -54,6 +55,10 @@ class LifeGen(object):
         self.apps = ["app"] if (napps < 2 or (r.random() < 0.6 and not two_apps)) else ["app", "app2"]
         pool = [n for n in (names or ["4", "7", "1"]) if isinstance(n, str)] or ["4"]
         self.name = r.choice(pool[:4])
+        # three in ten histories have two channels alive side by side (two names, two client-chosen ids); sides and
+        # connections work in both, and now and then a connection claims in one and opens in the other
+        self.nchan = 2 if (r.random() < 0.3 and len(pool) > 1) else 1
+        self.names = [self.name] + [n for n in pool[:4] if n != self.name][:self.nchan - 1]
         self.steps = steps
         self.restarts = restarts
         self.use_time = use_time
@@ -66,7 +71,7 @@ class LifeGen(object):
         self.explicit_sweeps = explicit_sweeps
         self.bad_cv = bad_client_version
         self.conns = []
-        self.told = {a: [] for a in self.apps}       # connections whose claim may have been answered
+        self.told = {(a, k): [] for a in self.apps for k in range(2)}       # connections whose claim may have been answered
         self.used_sides = {a: [] for a in self.apps}
         self.n = 0
         self.nb = 0
@@ -76,8 +81,15 @@ class LifeGen(object):
     def emit(self, *s):
         self.h.append(list(s))
 
-    def mb(self, app):
-        return "mL" if self.cross_app else "mL.%d" % self.apps.index(app)
+    def mb(self, app, chan=0):
+        base = "mL" if chan == 0 else "mK"
+        return base if self.cross_app else "%s.%d" % (base, self.apps.index(app))
+
+    def chan_of(self, c):
+        """the channel a command of c is about: its own, now and then the other one"""
+        if self.nchan > 1 and self.r.random() < 0.12:
+            return 1 - c.chan
+        return c.chan
 
     def live(self):
         return [c for c in self.conns if c.alive]
@@ -105,26 +117,27 @@ class LifeGen(object):
         return "%s%d-%d" % (self.body_prefix, self.seed, self.nb)
 
     def told_ref(self, c):
-        cands = [t for t in self.told[c.app]]
+        cands = [t for t in self.told[(c.app, self.chan_of(c))]]
         if c.claimed is not None and self.r.random() < 0.5:
             return {"$claimed": c.name}
         if cands:
             return {"$claimed": self.r.choice(cands).name}
-        return self.mb(c.app)
+        return self.mb(c.app, c.chan)
 
     # -- commands
     def cmd(self, c, what):
         r = self.r
         send = lambda **m: self.emit("send", c.name, m)
         if what == "claim" or what == "claim2":
+            k = self.chan_of(c)
             if c.claimed is None:
-                c.claimed = self.name
-                self.told[c.app].append(c)
-            send(type="claim", nameplate=self.name)
+                c.claimed = self.names[k]
+                self.told[(c.app, k)].append(c)
+            send(type="claim", nameplate=self.names[k])
         elif what == "claimA":
             if c.claimed is None:
                 c.claimed = {"$alloc": c.name}
-                self.told[c.app].append(c)
+                self.told[(c.app, c.chan)].append(c)
             send(type="claim", nameplate={"$alloc": c.name})
         elif what == "allocate":
             c.allocated = True
@@ -133,7 +146,7 @@ class LifeGen(object):
             if what == "open":
                 v = {"$claimed": c.name} if c.claimed is not None else self.told_ref(c)
             elif what == "openM":
-                v = self.mb(c.app)
+                v = self.mb(c.app, self.chan_of(c))
             else:
                 v = self.told_ref(c)
             if c.opened is None and not c.closed:
@@ -149,7 +162,7 @@ class LifeGen(object):
             self.emit("send", c.name, m)
         elif what == "releaseN":
             c.released = True
-            send(type="release", nameplate=self.name)
+            send(type="release", nameplate=self.names[self.chan_of(c)])
         elif what == "close":
             c.closed = True
             m = {"type": "close"}
@@ -160,7 +173,7 @@ class LifeGen(object):
             self.emit("send", c.name, m)
         elif what in ("closeM", "closeT"):
             c.closed = True
-            m = {"type": "close", "mailbox": self.mb(c.app) if what == "closeM" else self.told_ref(c)}
+            m = {"type": "close", "mailbox": self.mb(c.app, self.chan_of(c)) if what == "closeM" else self.told_ref(c)}
             if r.random() < 0.6:
                 m["mood"] = r.choice(MOODS)
             self.emit("send", c.name, m)
@@ -173,6 +186,7 @@ class LifeGen(object):
         side = side or self.pick_side(app)
         self.n += 1
         c = LConn("c%d" % self.n, app, side)
+        c.chan = r.randrange(self.nchan)
         self.conns.append(c)
         self.emit("connect", c.name)
         if bad or (self.bad_cv and script is None and r.random() < 0.015):
